@@ -436,4 +436,80 @@ def sequences(ctx):
     for ob_ in (o1, o5):
         seqs.append([(t, ob_) for t in stale])
     seqs.append([(t, o5 if i % 2 else o1) for i, t in enumerate(stale + list(reversed(stale)))])
+    seqs.append(many_rules_sequence(ctx))
+    # rules that differ only inside a literal by something a normalising cache key might fold
+    lit_pairs = [('name eq "John \nSmith"', 'name eq "John Smith"'), ('name eq "a  b"', 'name eq "a b"'), ('name eq "A"', 'name eq "a"'), ('name eq "a\tb"', 'name eq "a b"'),
+                 ('name in ["x", "y \n"]', 'name in ["x", "y "]'), ('name eq " a"', 'name eq "a"'), ('name co "(a)"', 'name co "a"'), ('name eq "a and b"', 'name eq "a AND b"')]
+    for val in ('John Smith', 'John \nSmith', 'a b', 'a  b', 'a', 'A', ' a', 'a\tb', 'y ', 'y \n', '(a)', 'a and b', 'a AND b'):
+        ob_ = obj({'name': S(val)})
+        fw, bw = [], []
+        for (r1, r2) in lit_pairs:
+            fw += [(r1, ob_), (r2, ob_), (r1, ob_)]
+            bw += [(r2, ob_), (r1, ob_), (r2, ob_)]
+        seqs.append(fw)
+        seqs.append(bw)
     return seqs
+
+
+def many_rules_sequence(ctx):
+    """more distinct rule texts than any plausible cache holds, then the early ones again (first seen with blanks around them)"""
+    n = 1300 if ctx.quick else 6000
+    o = obj({'x': I(7), 'k5': I(5), 'k6': I(0), 'a': {'b': {'c': I(1)}}})
+    first = [(' x gt 5 ', o), ('x gt 5\n', o), ('  x.a.b eq 1', o), ('a.b.c eq 1 ', o), ('\tk5 eq 5', o), ('k6 eq 6', o), ('x lt 5', o), ('(x gt 5)', o)]
+    mid = [('k%d eq %d or x eq %d' % (i, i, i), o) for i in range(n)]
+    again = [('x gt 5', o), (' x gt 5 ', o), ('x gt 5 ', o), ('x.a.b eq 1', o), ('a.b.c eq 1', o), ('k5 eq 5', o), ('k6 eq 6', o), ('x lt 5', o), ('k5 eq 5 or x eq 5', o), ('k7 eq 7 or x eq 7', o), ('(x gt 5)', o)]
+    return first + mid + again
+
+def separator_strings(ctx):
+    """attribute = two list elements glued by something a join-based implementation might use"""
+    out = []
+    for sep in ['\x00', ',', '|', ' ', '\n', '","', '\x1f', ';', '\t', ', ']:
+        for (e1, e2) in [('abc', 'cde'), ('a', 'b'), ('', 'x'), ('red', 'green')]:
+            for a in [e1 + sep + e2, sep + e1, e1 + sep, e2 + sep + e1, e1[-1:] + sep + e2[:1] if e1 and e2 else sep]:
+                if '"' in a or '\\' in a:
+                    continue
+                out.append(('x in ["%s", "%s", "fgh"]' % (e1, e2), obj({'x': S(a)}), 'separator-injection'))
+                if '"' not in sep and sep != '\n':
+                    out.append(('x in ["%s", "zz"]' % (e1 + sep + e2), obj({'x': S(e1)}), 'separator-injection'))
+    return out
+
+def escaped_list_elements(ctx):
+    """backslash escapes in list elements and in scalar literals must mean the same thing"""
+    out = []
+    raw = ['say \\"hi\\"', 'a\\\\b', 'a\\nb', '\\u00e9', 'tab\\t', 'C:\\\\', '\\"', 'x\\/y']
+    for r in raw:
+        lit = '"%s"' % r
+        for a in [r, r.replace('\\"', '"').replace('\\\\', '\\'), r.replace('\\n', '\n').replace('\\t', '\t').replace('\\u00e9', '\u00e9'), 'other']:
+            o = obj({'x': S(a)})
+            out.append(('x in [%s]' % lit, o, 'escaped-elements'))
+            out.append(('x eq %s' % lit, o, 'escaped-elements'))
+            out.append(('x in [%s, "zz"] or x eq %s' % (lit, lit), o, 'escaped-elements'))
+            out.append(('x in ["zz", %s]' % lit, o, 'escaped-elements'))
+    return out
+
+def guard_patterns(ctx):
+    """a presence / null / type guard in front of a comparison on the same path: short circuit decides what is reached"""
+    out = []
+    guards = ['x pr', 'x ne null', 'not (x eq null)', 'x eq null', 'not (x pr)', 'x eq 1', 'x eq "s"']
+    cmps = ['x gt true', 'x co 1', 'x in 1.0.0', 'x sw 1.5', 'x gt null', 'x eq 1', 'x lt 5', 'x co "s"', 'x in [1]', 'x ew 1']
+    objs = [obj({}), obj({'x': I(1)}), obj({'x': S('s')}), obj({'x': ('nil',)}), obj({'x': ('b', True)}), obj({'x': I(9), 'other': I(1)})]
+    for g in guards:
+        for c in cmps:
+            for fmt in ['%s and %s', '%s or %s', '(%s and %s) or other eq 1', 'not (%s) or %s', '%s and (%s)', 'other eq 1 or (%s and %s)']:
+                for o in objs:
+                    out.append((fmt % (g, c), o, 'guard-pattern'))
+    return out
+
+def printing_alike(ctx):
+    """lists / literals that print alike in one rule: a memo keyed by a printed form confuses them"""
+    out = []
+    pairs = [('["red green"]', '["red", "green"]'), ('[1, 2]', '["1", "2"]'), ('[1, 2]', '[1.0, 2.0]'), ('["1 2"]', '[1, 2]'), ('["a", "b c"]', '["a b", "c"]'), ('[1]', '["1"]'), ('[12]', '[1, 2]'),
+             ('["[1 2]"]', '[1, 2]'), ('[""]', '[" "]'), ('["a,b"]', '["a", "b"]')]
+    for (l1, l2) in pairs:
+        for a in [S('red'), S('green'), S('red green'), I(1), I(2), F(1.0), S('1'), S('1 2'), S('a'), S('b c'), S(''), S(' '), I(12), S('a,b')]:
+            o = obj({'tag': a})
+            for fmt in ['tag in %s or tag in %s', 'tag in %s or tag in %s or tag in %s', 'tag in %s and tag in %s', 'not (tag in %s) and tag in %s']:
+                args = (l1, l2) if fmt.count('%s') == 2 else (l1, l2, l1)
+                out.append((fmt % args, o, 'printing-alike'))
+                out.append((fmt % tuple(reversed(args)), o, 'printing-alike'))
+    return out
